@@ -116,3 +116,187 @@ MC_HARNESS(idle_submit) {
   for (int i = 0; i < want; i++) MC_CHECK(t.started[i].get() == 1 && t.finished[i].get() == 1, "task %d: started %d finished %d", i, t.started[i].get(), t.finished[i].get());
   mc::observe("tasks", want);
 }
+
+// ------------------------------------------------------------------------------------------------ C09
+// params: n pool size; poll=1: pool switched to poll mode (setSignalingWake(false, 200us)) before the test;
+//   task: 0 none, 1 T0 submits one task and goes on at once, 2 T0 submits one task and waits until its body has
+//         started (worker busy inside the task, which contains scheduling points);
+//   when: 0 act immediately, 1 act as soon as totalSleeping()==n (T0 becomes runnable at the last worker's
+//         enterSleep, so "between enterSleep and the futex wait" is one preemption away), 2 act after a quiet
+//         period in which every worker is blocked in its futex wait (wake mode only);
+//   op: d = destroy, r<m> = resize(m), w0 / w1 = setSignalingWake(false, 200us) / setSignalingWake(true).
+// In wake mode timed futex waits never expire (the harness switches MC_OPT_TIMEOUTS off), so a worker that misses
+// stop()+wakeAll() leaves T0 blocked in join => deadlock verdict. In poll mode the 200us poll period is the
+// mechanism, timeouts stay on and the oracle is termination. After the call: live modelled threads == 1 + new size.
+MC_HARNESS(lifecycle) {
+  int n = (int)P("n", 1), task = (int)P("task", 0), when = (int)P("when", 0);
+  bool poll = P("poll", 0) != 0;
+  std::string op = P.s("op", "d");
+  mc::Shared<int> started{0}, finished{0};
+  auto expect_live = [&](int workers, const char* what) {
+    int live = mc_live_threads();
+    MC_CHECK(live == 1 + workers, "after %s: %d modelled threads alive, expected T0 + %d workers", what, live, workers);
+  };
+  {
+    auto pool = std::make_unique<dispenso::ThreadPool>((size_t)n);
+    if (poll) pool->setSignalingWake(false, std::chrono::microseconds(200));
+    expect_live(n, "construction");
+    if (when == 2 && !poll) {
+      usleep(50000); // expires only when every worker is blocked in its (100 ms) futex wait
+      MC_CHECK(raw_sleeping(*pool) == n, "harness: %d of %d workers parked after the quiet period", raw_sleeping(*pool), n);
+      mc::cover("all_parked");
+    }
+    bool wake_mode = !poll;
+    mc::opt(MC_OPT_TIMEOUTS, wake_mode ? 0 : 1);
+    if (task) {
+      pool->schedule(
+          [&] {
+            started.set(1);
+            mc::point();
+            mc::point();
+            finished.set(1);
+          },
+          dispenso::ForceQueuingTag());
+      if (task == 2) {
+        mc::block_until([&] { return started.get() == 1; });
+        if (finished.get() == 0) mc::cover("worker_busy");
+      }
+    }
+    if (when == 1 && !poll) {
+      mc::block_until([&] { return raw_sleeping(*pool) == n; });
+      mc::cover("at_enter_sleep");
+    }
+    int size_now = n;
+    if (op == "d") {
+      pool.reset();
+      expect_live(0, "~ThreadPool");
+      if (task) MC_CHECK(finished.get() == 1, "~ThreadPool returned with the queued task not run");
+      mc::cover("destroy");
+    } else if (op[0] == 'r') {
+      int m = atoi(op.c_str() + 1);
+      pool->resize(m);
+      size_now = m;
+      expect_live(m, "resize");
+      MC_CHECK(pool->numThreads() == m, "numThreads() %ld after resize(%d)", (long)pool->numThreads(), m);
+      mc::cover(m > n ? "grow" : (m == 0 ? "to_zero" : (m == n ? "same" : "shrink")));
+    } else if (op == "w0" || op == "w1") {
+      if (op == "w0") pool->setSignalingWake(false, std::chrono::microseconds(200));
+      else pool->setSignalingWake(true, std::chrono::microseconds(dispenso::kDefaultSleepLenUs));
+      wake_mode = op == "w1";
+      expect_live(n, "setSignalingWake");
+      mc::cover(op == "w0" ? "to_poll" : "to_wake");
+    } else {
+      MC_CHECK(false, "harness: unknown op %s", op.c_str());
+    }
+    // teardown doubles as a second shutdown test: workers that were only just created, in the final mode
+    mc::opt(MC_OPT_TIMEOUTS, wake_mode ? 0 : 1);
+    (void)size_now;
+    pool.reset();
+    expect_live(0, "final ~ThreadPool");
+  }
+  mc::opt(MC_OPT_TIMEOUTS, 1);
+  if (task) MC_CHECK(started.get() == 1 && finished.get() == 1, "task started %d finished %d after the pool is gone", started.get(), finished.get());
+  mc::observe("done", 1);
+}
+
+// ------------------------------------------------------------------------------------------------ C03
+// Thread A submits k tasks through one path and waits for them; thread B runs a resize script concurrently
+// (resize() racing schedule() from other threads is supported: thread_pool_test ResizeConcurrent /
+// ResizeMoreConcurrent / ResizeGrowConcurrentBulk do exactly that, and resizeLocked()'s comments say external
+// schedule() calls are safe to race). T0 is the watchdog.
+// params: n initial size; r dotted resize script ("3", "1", "0", "0.2", "1.3"); k tasks (default n); path:
+//   s   k x pool.schedule(f), A waits on the task counters (no wait API on a bare pool)
+//   ts  k x TaskSet::schedule(f); wait()            tb  TaskSet::scheduleBulk(k) (k <= n: ring fast path); wait()
+//   cs  k x ConcurrentTaskSet(kHeavy)::schedule(f) (placed -> steal ring when a sleeper is claimed); wait()
+//   pf  parallel_for(TaskSet, static range of k+1, wait=true): k chunks to the rings, one on the caller
+//   as  k x dispenso::async(pool, f); Future::wait() on each
+// Oracle: every body runs exactly once; when wait() returns all of A's tasks have finished; wait() and resize()
+// return within 3 s of virtual time (the 100 ms backstop may fire, so a merely delayed task is not reported, only
+// one that nobody will ever run); nothing runs after ~ThreadPool.
+MC_HARNESS(resize_work) {
+  int n = (int)P("n", 2), k = (int)P("k", n);
+  std::string path = P.s("path", "tb"), script = P.s("r", "1");
+  std::vector<int> sizes;
+  {
+    int cur = -1;
+    for (char c : script + ".") {
+      if (c >= '0' && c <= '9') cur = (cur < 0 ? 0 : cur * 10) + (c - '0');
+      else if (cur >= 0) sizes.push_back(cur), cur = -1;
+    }
+  }
+  Tasks t;
+  mc::Shared<int> a_done{0}, b_done{0};
+  int ntasks = path == "pf" ? k + 1 : k;
+  {
+    dispenso::ThreadPool pool((size_t)n);
+    auto all_finished = [&] {
+      for (int i = 0; i < ntasks; i++)
+        if (t.finished[i].get() != 1) return false;
+      return true;
+    };
+    mc::spawn([&] { // ---- thread A
+      auto ring_likely = [&](int cnt) {
+        long np = (long)pool.numThreads_.a_.load(std::memory_order_relaxed);
+        long nr = (long)pool.numRings_.a_.load(std::memory_order_relaxed);
+        return cnt * 4 >= np && cnt <= np && nr >= cnt;
+      };
+      if (path == "s") {
+        for (int i = 0; i < k; i++) pool.schedule([&t, i] { t.body(i); });
+        mc::block_until([&] { return all_finished(); });
+      } else if (path == "ts") {
+        dispenso::TaskSet ts(pool);
+        for (int i = 0; i < k; i++) ts.schedule([&t, i] { t.body(i); });
+        ts.wait();
+        MC_CHECK(all_finished(), "TaskSet::wait() returned with %d of %d tasks finished", t.nfinished.get(), ntasks);
+      } else if (path == "tb") {
+        dispenso::TaskSet ts(pool);
+        if (ring_likely(k)) mc::cover("ring_fast_path");
+        ts.scheduleBulk((size_t)k, [&t](size_t i) { return [&t, i] { t.body((int)i); }; });
+        ts.wait();
+        MC_CHECK(all_finished(), "TaskSet::wait() returned with %d of %d tasks finished", t.nfinished.get(), ntasks);
+      } else if (path == "cs") {
+        dispenso::ConcurrentTaskSet cts(pool);
+        for (int i = 0; i < k; i++) {
+          cts.schedule([&t, i] { t.body(i); });
+          if (pool.stealRingsWithWork_.a_.load(std::memory_order_relaxed) != 0) mc::cover("steal_ring");
+        }
+        cts.wait();
+        MC_CHECK(all_finished(), "ConcurrentTaskSet::wait() returned with %d of %d tasks finished", t.nfinished.get(), ntasks);
+      } else if (path == "pf") {
+        dispenso::TaskSet ts(pool);
+        if (ring_likely(k)) mc::cover("ring_fast_path");
+        dispenso::parallel_for(
+            ts, dispenso::makeChunkedRange(0, k + 1, dispenso::ParForChunking::kStatic), [&t](int b, int e) { for (int i = b; i < e; i++) t.body(i); });
+        MC_CHECK(all_finished(), "parallel_for returned with %d of %d indices done", t.nfinished.get(), ntasks);
+      } else if (path == "as") {
+        std::vector<dispenso::Future<void>> futs;
+        for (int i = 0; i < k; i++) futs.push_back(dispenso::async(pool, [&t, i] { t.body(i); }));
+        for (auto& f : futs) f.wait();
+        MC_CHECK(all_finished(), "Future::wait() returned with %d of %d functors finished", t.nfinished.get(), ntasks);
+      } else {
+        MC_CHECK(false, "harness: unknown path %s", path.c_str());
+      }
+      a_done.set(1);
+    });
+    mc::spawn([&] { // ---- thread B
+      for (int m : sizes) {
+        pool.resize(m);
+        MC_CHECK(pool.numThreads() == m, "numThreads() %ld right after resize(%d)", (long)pool.numThreads(), m);
+      }
+      b_done.set(1);
+    });
+    // ---- T0: watchdog in virtual time
+    uint64_t limit = mc::now_ns() + 3000ull * 1000 * 1000;
+    mc::block_until([&] { return (a_done.get() && b_done.get()) || mc::now_ns() > limit; });
+    MC_CHECK(b_done.get() == 1, "resize script %s did not finish within 3 s of virtual time", script.c_str());
+    MC_CHECK(a_done.get() == 1, "stranded: the submitter is still waiting after 3 s of virtual time (%d of %d tasks started, %d finished, pool size now %ld)",
+             t.nstarted.get(), ntasks, t.nfinished.get(), (long)pool.numThreads_.a_.load(std::memory_order_relaxed));
+    mc::join_all();
+    int final_size = sizes.empty() ? n : sizes.back();
+    MC_CHECK(mc_live_threads() == 1 + final_size, "%d modelled threads alive after the script, expected T0 + %d workers", mc_live_threads(), final_size);
+    mc::observe("inline_or_pool", t.caller_ran.get());
+  }
+  t.pool_gone.set(1);
+  for (int i = 0; i < ntasks; i++) MC_CHECK(t.started[i].get() == 1 && t.finished[i].get() == 1, "task %d: started %d finished %d", i, t.started[i].get(), t.finished[i].get());
+  mc::observe("tasks", ntasks);
+}
